@@ -861,10 +861,12 @@ class TaskScenario(ScenarioData):
             else:
                 precise_end = self.project["start"]
 
-        # Release unused portion of the slot back to the resource
+        # Release unused portion of the slot back to the resource(s). All members
+        # of a team were booked for this slot, so all of them get the tail back.
         seconds_unused = booked_seconds - seconds_into_slot
         if seconds_unused > 0 and resource:
-            for member in [resource]:
+            team = [r for r in (self._selectedResources or []) if r is not resource]
+            for member in [resource, *team]:
                 res_scenario = member.data[self.scenarioIdx] if member.data else None
                 if not res_scenario:
                     continue
@@ -1320,6 +1322,21 @@ class TaskScenario(ScenarioData):
             if not all_available:
                 # Can't book - one or more resources unavailable
                 return
+
+            # Team members work the same instants: if some member has less of this
+            # slot left than the others (another task used part of it), nobody can
+            # use more than the common free part.
+            slot_idx = self.currentSlotIdx if self.currentSlotIdx is not None else 0
+            slot_duration = self.project.attributes.get("scheduleGranularity", 3600)
+            common_free = float(slot_duration)
+            if self.slotStartOffset > 0 and self.doneEffort == 0:
+                common_free -= self.slotStartOffset
+            for resource in resources_to_book:
+                common_free = min(common_free, resource.data[self.scenarioIdx].getAvailableSecondsInSlot(slot_idx))
+            for resource in resources_to_book:
+                res_scenario = resource.data[self.scenarioIdx]
+                if res_scenario.getAvailableSecondsInSlot(slot_idx) > common_free:
+                    res_scenario.slotSecondsUsed[slot_idx] = slot_duration - common_free
 
         # Now book all resources (or single resource for non-team tasks)
         booked_any = False
